@@ -35,7 +35,7 @@ func BuildTagged(tags string) (string, error) {
 	if tags != "" {
 		name += "_" + strings.ReplaceAll(tags, ",", "_")
 	}
-	out := "/verif/.work/bin/" + name
+	out := Root() + "/.work/bin/" + name
 	args := []string{"build", "-tags", tags}
 	if ov := os.Getenv("VERIF_OVERLAY"); ov != "" {
 		out += "_ov"
@@ -48,7 +48,7 @@ func BuildTagged(tags string) (string, error) {
 	}
 	args = append(args, "-o", out, "./cmd/check")
 	cmd := exec.Command("go", args...)
-	cmd.Dir = "/verif/mc"
+	cmd.Dir = Root() + "/mc"
 	cmd.Env = append(os.Environ(), "GOFLAGS=-mod=mod", "GOPROXY=off")
 	if b, err := cmd.CombinedOutput(); err != nil {
 		return "", fmt.Errorf("building with tags %q failed: %v\n%s", tags, err, b)
@@ -62,7 +62,7 @@ func RunSubPrebuilt(id, tags string, args ...string) (*SubResult, error) {
 	if tags != "" {
 		name += "_" + strings.ReplaceAll(tags, ",", "_")
 	}
-	bin := "/verif/.work/bin/" + name
+	bin := Root() + "/.work/bin/" + name
 	if os.Getenv("VERIF_OVERLAY") != "" {
 		bin += "_ov"
 	}
